@@ -70,9 +70,14 @@ func context(t *rapid.T, label string) []byte {
 }
 
 func key(t *rapid.T, c elliptic.Curve, b []byte) *patecdsa.PrivateKey {
-	k, err := patecdsa.CreateKey(c, b)
+	buf := append([]byte{}, b...)
+	k, err := patecdsa.CreateKey(c, buf)
 	if err != nil {
 		t.Fatalf("CreateKey: %v", err)
+	}
+	// the caller reuses its buffer: a key must not depend on memory the caller still owns
+	for i := range buf {
+		buf[i] ^= 0xFF
 	}
 	return k
 }
